@@ -1,5 +1,6 @@
 import FastorModel.Proofs.LUReconstruct
 import FastorModel.Proofs.LUInv
+import FastorModel.Proofs.LUExport
 import Mathlib.Data.Rat.Defs
 import Mathlib.Algebra.Order.Field.Rat
 /-
@@ -27,18 +28,6 @@ founded, never produces an empty tensor and never reaches the unrolled kernels -
 theorem blockSplit_bounds (n : Nat) (h : 32 < n) : 16 ≤ blockSplit n ∧ blockSplit n < n ∧ blockSplit n ≤ n - blockSplit n := by
   unfold blockSplit
   split <;> omega
-
-def blocked : Strategy → Bool
-  | .block | .blockPiv => true
-  | _ => false
-
-/-- non-zero pivots as met by the factorisation kernel the strategy dispatches to -/
-def CoreDefined (ops : InvOps K) (blk : Bool) (n : Nat) (A : Mat K) : Prop :=
-  if blk then BlockDefined ops n A else (if n ≤ 8 then UnrolledDefined n A else SimpleDefined n A)
-
-/-- the strategy is defined on A (the pivoted strategies factorise the row-permuted matrix) -/
-def LUDefined (ops : InvOps K) (gt : K → K → Bool) (s : Strategy) (n : Nat) (A : Mat K) : Prop :=
-  CoreDefined ops (blocked s) n (if s.pivoted then applyPivotV n A (pivotPerm gt n A) else A)
 
 /-- the unrolled kernels `_lufact<T,N>` (the code has N = 1..8; the pattern is right for every N) -/
 theorem lufact_unrolled_correct (n : Nat) (A : Mat K) (hdef : UnrolledDefined n A) :
@@ -72,22 +61,8 @@ theorem lu_block_step (ops : InvOps K) (hops : InvSpec ops) (n N : Nat) (hN : N 
 recursive 9..32, blocked 33..64 with split `(M/8*8)/2`, blocked > 64 with split `(M/16*16)/2` and the sub-dispatch of
 `useless::lu_block_simple_dispatcher`) and `lu_simple_dispatcher` (unrolled 1..8, Doolittle loops above) -/
 theorem lu_core_correct (ops : InvOps K) (hops : InvSpec ops) (blk : Bool) (n : Nat) (A : Mat K) (hdef : CoreDefined ops blk n A) :
-    IsLU n A (luCore ops blk n A).1 (luCore ops blk n A).2 := by
-  unfold CoreDefined at hdef
-  unfold luCore
-  cases blk with
-  | true =>
-    simp only [if_true] at hdef ⊢
-    exact luBlock_isLU ops hops n A _ _ (fun i j _ _ _ => get_zero n n i j) (fun i j _ _ _ => get_zero n n i j) hdef
-  | false =>
-    simp only [Bool.false_eq_true, if_false] at hdef ⊢
-    unfold luSimple
-    by_cases h8 : n ≤ 8
-    · rw [if_pos h8] at hdef ⊢; exact lufactUnrolled_isLU n A hdef
-    · rw [if_neg h8] at hdef ⊢; exact luSimpleLoops_isLU n A hdef
-
-theorem range_getD (n i : Nat) (hi : i < n) : (Array.range n).getD i 0 = i := by
-  simp [Array.getD, hi]
+    IsLU n A (luCore ops blk n A).1 (luCore ops blk n A).2 :=
+  Fastor.LU.lu_core_correct ops hops blk n A hdef
 
 /-- the static pivot: for EVERY input (any comparison `gt`, any matrix) the vector produced by the swap loop of
 `pivot_inplace` is a bijection of 0..n-1 -/
@@ -113,42 +88,8 @@ theorem lu_correct (ops : InvOps K) (hops : InvSpec ops) (gt : K → K → Bool)
     (∀ i j, i < n → j < n → ∑ m ∈ range n, r.L.get i m * r.U.get m j = A.get (r.perm.getD i 0) j) ∧
     (∀ i, i < n → r.perm.getD i 0 < n) ∧
     (∀ i j, i < n → j < n → r.perm.getD i 0 = r.perm.getD j 0 → i = j) ∧
-    (∀ v, v < n → ∃ i, i < n ∧ r.perm.getD i 0 = v) := by
-  unfold LUDefined at hdef
-  have idb : (∀ i, i < n → (Array.range n).getD i 0 < n) ∧
-      (∀ i j, i < n → j < n → (Array.range n).getD i 0 = (Array.range n).getD j 0 → i = j) ∧
-      (∀ v, v < n → ∃ i, i < n ∧ (Array.range n).getD i 0 = v) :=
-    ⟨fun i hi => by rw [range_getD n i hi]; exact hi,
-     fun i j hi hj h => by rwa [range_getD n i hi, range_getD n j hj] at h,
-     fun v hv => ⟨v, hv, range_getD n v hv⟩⟩
-  have pb := pivotPerm_bijection gt n A
-  cases s with
-  | block =>
-    have h := lu_core_correct ops hops true n A (by simpa [blocked, Strategy.pivoted] using hdef)
-    refine ⟨h.diag, h.lzero, h.uzero, ?_, idb⟩
-    intro i j hi hj
-    show ∑ m ∈ range n, (luCore ops true n A).1.get i m * (luCore ops true n A).2.get m j = A.get ((Array.range n).getD i 0) j
-    rw [range_getD n i hi]; exact h.mul i j hi hj
-  | simple =>
-    have h := lu_core_correct ops hops false n A (by simpa [blocked, Strategy.pivoted] using hdef)
-    refine ⟨h.diag, h.lzero, h.uzero, ?_, idb⟩
-    intro i j hi hj
-    show ∑ m ∈ range n, (luCore ops false n A).1.get i m * (luCore ops false n A).2.get m j = A.get ((Array.range n).getD i 0) j
-    rw [range_getD n i hi]; exact h.mul i j hi hj
-  | blockPiv =>
-    have h := lu_core_correct ops hops true n (applyPivotV n A (pivotPerm gt n A)) (by simpa [blocked, Strategy.pivoted] using hdef)
-    refine ⟨h.diag, h.lzero, h.uzero, ?_, pb.2⟩
-    intro i j hi hj
-    show ∑ m ∈ range n, (luCore ops true n (applyPivotV n A (pivotPerm gt n A))).1.get i m *
-      (luCore ops true n (applyPivotV n A (pivotPerm gt n A))).2.get m j = A.get ((pivotPerm gt n A).getD i 0) j
-    rw [h.mul i j hi hj, applyPivotV_get n A _ i j hi hj]
-  | simplePiv =>
-    have h := lu_core_correct ops hops false n (applyPivotV n A (pivotPerm gt n A)) (by simpa [blocked, Strategy.pivoted] using hdef)
-    refine ⟨h.diag, h.lzero, h.uzero, ?_, pb.2⟩
-    intro i j hi hj
-    show ∑ m ∈ range n, (luCore ops false n (applyPivotV n A (pivotPerm gt n A))).1.get i m *
-      (luCore ops false n (applyPivotV n A (pivotPerm gt n A))).2.get m j = A.get ((pivotPerm gt n A).getD i 0) j
-    rw [h.mul i j hi hj, applyPivotV_get n A _ i j hi hj]
+    (∀ v, v < n → ∃ i, i < n ∧ r.perm.getD i 0 = v) :=
+  Fastor.LU.lu_correct ops hops gt s n A hdef
 
 /-- the matrix encoding (`lu(A, L, U, Tensor<T,M,M>& P)`): `pivot_inplace` stores the permutation matrix, `apply_pivot` reads it
 back with `std::find`, and the factors are THE SAME as with the vector encoding; so `lu_correct` covers both encodings. -/
